@@ -631,6 +631,10 @@ def _emissions(run: Run, mod: Module, fn: FuncInfo, records: List[Any]) -> bool:
 
 M = "d42/migration/migrate_v1_to_v2.py"
 MUTANTS = [
+    {"name": "generated lines keep the module's CRLF but only \\n is stripped when joining", "rule": "SPAN-ONELINE",
+     "edits": [(M, "    replacements = []\n", "    replacements = []\n    eol = \"\\r\\n\" if \"\\r\\n\" in source_code else \"\\n\"\n"),
+               (M, "replacement_lines.append(f'from {new_module} import {names_str}\\n')", "replacement_lines.append(f'from {new_module} import {names_str}{eol}')"),
+               (M, "replacement_lines.append(f'from {module} import {names_str}\\n')", "replacement_lines.append(f'from {module} import {names_str}{eol}')")]},
     {"name": "a mapping target misspelt", "rule": "TARGETS-RESOLVE",
      "edits": [(M, '"Substitutor": ("d42.substitution", "Substitutor")', '"Substitutor": ("d42.substitution", "Substitutr")')]},
     {"name": "a mapping target module misspelt", "rule": "TARGETS-RESOLVE",
